@@ -14,7 +14,8 @@
 (* ground type constructor arrives as <<"U", text>>.                       *)
 (*                                                                         *)
 (* Verdict per case (dev = {} is the property):                            *)
-(*  ~WellTyped(prog)  =>  ctor = "TypeErrorCaughtException"                *)
+(*  ~WellTyped(prog)  =>  TypeErrorCaughtException from the constructor or  *)
+(*       from the compilation of some predicate                            *)
 (*  WellTyped /\ Determined =>                                             *)
 (*       ctor = "ok" and no predicate is rejected when compiled,           *)
 (*       printed signature of every predicate = Signature(prog, p),        *)
@@ -50,9 +51,19 @@ ValueFaults(c, inf) ==
                      DOMAIN o.rows[j] # (DOMAIN inf.sig[o.p]) \ {"$"}}}
     : k \in 1..Len(c.obs.preds)}
 
+(* Rejected with a type error: by LogicaProgram(...) (RunTypechecker) or,   *)
+(* the constructor having passed, by the compilation of some predicate      *)
+(* (SingleRuleSql checks the rule again after injection).                    *)
+LateReject(c) == c.obs.ctor = "ok" /\ \E k \in 1..Len(c.obs.preds) : c.obs.preds[k].cls = TypeErr
+Rejected(c) == c.obs.ctor = TypeErr \/ LateReject(c)
+
+(* Predicates that fail for another reason (a diagnostic that is not a type  *)
+(* error, an SQL error at run time) produce no values: nothing to judge      *)
+(* here (other properties own those).  A crash (no diagnostic) while an      *)
+(* accepted program is compiled is not an acceptance.                        *)
 JudgeWith(c, inf, strict) ==
   IF ~inf.ok
-  THEN IF c.obs.ctor = TypeErr THEN [ok |-> TRUE, why |-> "ill typed, rejected with a type error"]
+  THEN IF Rejected(c) THEN [ok |-> TRUE, why |-> "ill typed, rejected with a type error"]
        ELSE [ok |-> FALSE, why |-> "ill-typed program was not rejected with a type error"]
   ELSE IF ~inf.det
   THEN [ok |-> TRUE, why |-> "types not determined by the program: no demand"]
@@ -60,8 +71,8 @@ JudgeWith(c, inf, strict) ==
   THEN [ok |-> FALSE, why |-> "well-typed program was rejected"]
   ELSE IF \E k \in 1..Len(c.obs.preds) : c.obs.preds[k].cls = TypeErr
   THEN [ok |-> FALSE, why |-> "well-typed program: a predicate was rejected with a type error when compiled"]
-  ELSE IF \E k \in 1..Len(c.obs.preds) : c.obs.preds[k].status # "ok"
-  THEN [ok |-> FALSE, why |-> "accepted program failed to compile or run"]
+  ELSE IF \E k \in 1..Len(c.obs.preds) : c.obs.preds[k].status = "internal"
+  THEN [ok |-> FALSE, why |-> "well-typed program: compilation crashed without a diagnostic"]
   ELSE IF SigDiff(c, inf) # {}
   THEN [ok |-> FALSE, why |-> "printed signature differs from Signature"]
   ELSE IF strict /\ ValueFaults(c, inf) # {}
@@ -90,7 +101,8 @@ Judge(c) ==
       sigdiff |-> IF inf.ok /\ inf.det /\ c.obs.ctor = "ok" THEN SigDiff(c, inf) ELSE {},
       faults |-> IF inf.ok /\ inf.det /\ c.obs.ctor = "ok" THEN ValueFaults(c, inf) ELSE {},
       npreds |-> IF j.ok /\ inf.ok /\ inf.det THEN Cardinality(DOMAIN inf.sig) ELSE 0,
-      nvals |-> nvals, gen |-> gen,
+      nvals |-> nvals, gen |-> gen, late |-> ~inf.ok /\ LateReject(c),
+      notrun |-> Cardinality({k \in 1..Len(c.obs.preds) : c.obs.preds[k].status # "ok"}),
       under |-> IF c.kind = "clean" /\ inf.ok /\ inf.det THEN WellTypedUnder(c.prog, c.gamma) ELSE TRUE,
       sig |-> IF inf.ok THEN inf.sig ELSE ("$" :> NoFields)]
 
